@@ -148,6 +148,72 @@ CHECKS = {
              "use_c x max_dist/max_value x window/penalty/psi are judged call by call against TopK of the "
              "specification's distances (indices up to ties).",
         note="Trusted: TLC, exact-domain encoding."),
+    "C15": dict(
+        level="model_checking", design="DESIGN.md 4/C15",
+        technique="TLA+ transition system of the merge loop model-checked over all small matrices; merge_hook event traces replayed by TLC as Merge steps",
+        text="TLC explores the merge loop (nondeterministic choice among minimal pairs and of the surviving side) for ALL "
+             "upper-triangular matrices over {1,2,3,inf}, n <= 4/5, max_dist in {1,2,inf}: partition keyed by a member, "
+             "monotone and bounded merges, progress unless stuck, single rooted binary tree for finite matrices. Real "
+             "runs: the public merge_hook events and the returned dictionary of Hierarchical / HierarchicalTree fits "
+             "(given matrices through dists_fun, real series through dtw.distance_matrix(_fast), order_hook, "
+             "side-swapping merge_hook, re-used model objects) are replayed: every event must be an enabled Merge, the "
+             "end state stuck, the dictionary equal to the state; LinkageTree is compared with SciPy on the condensed "
+             "vector in the documented pair order.",
+        note="Trusted: TLC; SciPy's linkage as the oracle the property itself names."),
+    "C16": dict(
+        level="model_checking", design="DESIGN.md 4/C16",
+        technique="TLA+ state machine of assign/repair/update/final over abstract rank tables model-checked; recorded fits judged by the same postcondition predicate",
+        text="TLC explores the k-means loop over ALL rank tables (k <= 3, n <= 4, max_it <= 2) with outlier masks and "
+             "empty-cluster repair as nondeterministic choices: every terminal state has keys 0..k-1, a partition, "
+             "nearest-mean membership and performed_it <= max_it+1. Real fits (seeds x initialisation modes x "
+             "drop_stddev x window/penalty x use_c x containers, a few with the real Pool) are judged by the same "
+             "predicate on the returned clusters, len(means), performed_it, monitor_distances calls, and the dense "
+             "ranks of DTW distances series x final means computed with the library's single-pair routine.",
+        note="Trusted: TLC; dtw.distance / dtw_ndim.distance for the ranks (decided under C01/C02/C11); ranks tie values "
+             "within 1e-9 relative."),
+    "C17": dict(
+        level="model_checking", design="DESIGN.md 4/C17",
+        technique="TLA+ NW: recurrence proved equal to the maximum over all enumerated global alignments; recorded values, score matrices and alignments trace-validated",
+        text="Act M: for all sequence pairs up to length 3/4 over a binary alphabet x substitution tables x gap scores the "
+             "dynamic programme with its border equals the maximum over ALL global alignments. Real calls (default and "
+             "dictionary scoring with fractional gap costs, max/min orientation, lengths 0..6, six traceback orders): TLC "
+             "judges value = optimum, the score matrix cell by cell and every alignment (equal lengths, reduces to the "
+             "inputs, no gap/gap column, scores the value).",
+        note="Trusted: TLC; scores scaled by 2 to keep half-integer gap costs exact."),
+    "C18": dict(
+        level="model_checking", design="DESIGN.md 4/C18",
+        technique="TLA+ Affinity recurrence in the dyadic regime (gamma = ln 2) and a state machine of the match iterator; matrices and match histories trace-validated",
+        text="Exact regime: affinities 2^-d^2 at scale 2^17. Act M: cells non-negative in band / excluded outside, and the "
+             "iterator state machine (take a maximal unconsumed positive cell, walk back along positive unconsumed "
+             "predecessors, restart/keep) always yields histories satisfying HistoryOK. Real runs: the matrix of "
+             "warping_paths_affinity (Python, use_c, fast, compact + full-range expansion) judged cell by cell, and "
+             "local_concurrences histories of kbest_matches calls (k, minlen, buffer, restart) for Python / C / "
+             "C-compact judged by HistoryOK.",
+        note="Trusted: TLC; np.exp(-ln2*d^2) within 1e-6 relative of the dyadic value at the chosen scale; tau placed "
+             "between attainable affinities."),
+    "C19": dict(
+        level="model_checking", design="DESIGN.md 4/C19",
+        technique="TLA+ Similarity: parameter-resolution table and values/exp-arguments as exact rationals model-checked; recorded values (or recovered arguments) trace-validated",
+        text="Act M proves monotonicity, zero -> maximal, range [0,1] under the default scale and positivity of every "
+             "derived scale for all distance arrays over {0,1,2,4} up to length 3 x methods x given/derived parameters. "
+             "Real calls of distance_to_similarity and squash (all methods x defaults / explicit r, a, x0, base / "
+             "cover_quantile / keep_sign x shapes) are judged on exact rational values, on the rational ARGUMENT "
+             "recovered from the value (ln S, log_b(1-S), log_b(S/(1-S))), on dense ranks and range flags, reported "
+             "parameters and re-application.",
+        note="Trusted: TLC; the lemma that exp is increasing with exp(0)=1; recovery of rational arguments from floats "
+             "(denominators <= 720, 1e-11). Quantile-derived scales are irrational: judged at order level only. Known "
+             "finding: reciprocal + cover_quantile does not report a."),
+    "C20": dict(
+        level="model_checking", design="DESIGN.md 4/C20",
+        technique="TLA+ Purity (store unchanged, results functional in content) with an impure-routine self-test; recorded call histories on persistent shared objects trace-validated",
+        text="Seeded histories of calls drawn from 20 routines over shared series, collections and a settings dictionary, "
+             "with the container kind (list, tuple, array('d'), ndarray, strided / negative-stride / F-ordered / "
+             "transposed views, list or tuple of arrays, 2-D array, SeriesContainer) and the engine re-drawn per call, "
+             "repeated calls, and a second pass with NumPy hidden; contents of EVERY object are recorded before and "
+             "after every call. TLC judges: no object changed; equal (routine, content, settings) => equal result "
+             "across kinds, engines, NumPy presence and history; distance results equal DTWCore.",
+        note="Trusted: TLC; canonical result encoding with 10 significant digits; routines that may pick among ties "
+             "(paths, merges, averages) are compared per engine only."),
 }
 
 NOT_YET = {
